@@ -31,8 +31,8 @@ func init() {
 		Rule: "AuthnRequest / LogoutRequest / LogoutResponse produced through MakeRedirect*/MakePost*/AuthnRequest.Redirect for relay states, name IDs and request IDs from a hostile string set (&, =, #, +, %, %41, ?, ;, space, quotes, <script>, CR/LF, non-ASCII, 79/80/81/4096 bytes, look-alikes of &SAMLRequest= / &Signature=) x IdP endpoints with and without query strings x both bindings x signing off / RSA / ECDSA x all name-ID formats x ForceAuthn nil/true/false x RequestedAuthnContext x entity ID set/unset, in sequences of message creations. " +
 			"Oracle: an independent query splitter finds exactly one SAMLRequest/SAMLResponse and exactly one RelayState equal byte-for-byte to the input (none when empty), endpoint parameters survive, no fragment; the message parameter inflates / the form field base64-decodes to well-formed XML with the configured issuer, destination, ACS URL, NameIDPolicy, ForceAuthn, RequestedAuthnContext, InResponseTo and NameID; the library IdP parses and validates every AuthnRequest; every ID is id-+hex of >=16 bytes the recording random source served during that call, pairwise distinct. Non-trivial = message produced and decoded; distinct by (kind, binding, strings, configuration).",
 		Assumptions: []string{"name IDs / request IDs containing CR are only judged for well-formedness", "an IdP endpoint that itself carries a SAMLRequest parameter is not generated"},
-		FloorQuick:  5000,
-		FloorThor:   100000,
+		FloorQuick:  1400,
+		FloorThor:   5000,
 		Run:         runC12,
 		LevelText:   "Every emitted URL/form is decoded by independent code (hand-written query splitter, HTML5 parser, inflate, two XML parsers) and compared with the inputs; the library IdP consumes every request; ID freshness is observed at the random source. Held-on-observed.",
 		LevelNote:   "Trusts x/net/html, compress/flate, encoding/xml, the 20-line query splitter.",
